@@ -19,6 +19,13 @@ def post_copy_covers_all(ck: Checker, rule: str) -> None:
     g = ck.cfg(fn)
     prot = [n for n in g.nodes.values() for c in calls_at(n) if is_method_call(c, "protect") and norm(c.func.value) == "self" and n.loops]
     ck.floor(rule, len(prot), 1, "per-object protect in HashFileDB.add")
+    # the requested oids, whatever the local is called: the normalised form of the `oid` parameter
+    oparam = "oid" if fn.has_param("oid") else fn.pos_params[3] if len(fn.pos_params) > 3 else "oid"
+    req = {oparam}
+    for a in walk_own(fn.node):
+        if isinstance(a, ast.Assign) and len(a.targets) == 1 and isinstance(a.targets[0], ast.Name) and any(isinstance(x, ast.Name) and x.id == oparam for x in walk_expr(a.value)) and isinstance(a.value, (ast.IfExp, ast.List, ast.Name, ast.Call)):
+            req.add(a.targets[0].id)
+    oids_name = next((r for r in sorted(req) if r != oparam), oparam)
     for n in prot:
         h = g.nodes[n.loops[-1]]
         it = h.ast.iter if h.kind == "for" else None
@@ -27,16 +34,16 @@ def post_copy_covers_all(ck: Checker, rule: str) -> None:
         from ..an import order_source
 
         if it is not None:
-            want = order_source(g, h, ast.Name(id="oids", ctx=ast.Load()), fn.has_param)
+            want = order_source(g, h, ast.Name(id=oids_name, ctx=ast.Load()), fn.has_param)
             got = order_source(g, h, it, fn.has_param)
             if got == want and not any(x.split(":")[0] in ("filtered", "collapsed") for x in got):
                 ok = True
         if not ok and isinstance(src, ast.Name):
-            if src.id == "oids":
+            if src.id in req:
                 ok = True
             for b in collection_builds(g, fn.node, src.id):
                 why = repr(b)
-                ok = ok or (norm(b.src) == "oids" and not b.ifs and b.unconditional)
+                ok = ok or (norm(b.src) in req and not b.ifs and b.unconditional)
                 if b.ifs or not b.unconditional:
                     ok = False
                     why = f"{src.id} leaves out oids ({[norm(i) for i in b.ifs]})"
